@@ -6,6 +6,9 @@ RULE = ("TLC explores every sequence of up to MaxOps operations from {fold, mirr
         "Spectrum::fold().into_spectrum(fill) for fills {nan, 0, -1, inf} on power-of-two (exact), random and special "
         "(subnormal, huge, -0.0) inputs, and single folds also through `sfs fold --fill`. Non-trivial: more than one "
         "cell; distinct = (shape, operation sequence).")
+RULE += (" SpectrumLarge.tla: the same operator on concrete patterned spectra of 66049-90000 cells (4 shapes, every proper "
+         "subset of removed axes / 5 shapes for folding), expected entries computed exactly by TLC, replayed on the library "
+         "(axes ascending and descending) and on the binary (-m and the complementary -M; three fills).")
 ASSUME = ["mirror is implemented independently in the harness by index arithmetic",
           "exact comparison for power-of-two and special inputs, 1e-12 relative for random inputs"]
 
@@ -13,5 +16,8 @@ ASSUME = ["mirror is implemented independently in the harness by index arithmeti
 def run(tier):
     stages = [("MCFold", "MCFold_quick.cfg", "fold")] if tier == "quick" else [
         ("MCFold", "MCFold_t1.cfg", "fold"), ("MCFold", "MCFold_t2.cfg", "fold")]
+    # concrete spectra with more than 2^16 cells: a blocked / reordered / vectorised path above some size must compute the
+    # same function (SpectrumLarge.tla; expected entries are integers computed by TLC from the declarative definitions)
+    stages = stages + [("MCSpectrumLarge", "MCSpectrumLarge_fold.cfg", "large", {"workers": 4})]
     return standard("C05", tier, "model_checking", RULE, ASSUME, stages,
                     sabotage=[("MCFold", "MCFold_abOffBy.cfg", ["DeclEqualsAsCoded", "MassWithFillZero", "PolaritySymmetric", "Idempotent"])])
